@@ -2317,7 +2317,7 @@ structure AugStepOK (id : Nat) (addErrors : Bool) (a : Entry) (s0 : PState)
     (acc acc' : PState × List Entry × Nat × Nat) : Prop where
   fle : FLe s0.forest acc'.1.forest
   pend : acc'.1.pending = acc.1.pending
-  res : (acc'.2.1 = acc.2.1 ∧ acc'.2.2.2 = acc.2.2.2) ∨
+  res : (acc'.2.1 = acc.2.1 ∧ acc'.2.2.2 = acc.2.2.2 ∧ acc'.2.2.1 = acc.2.2.1 + 1) ∨
     (acc'.2.1 = acc.2.1 ++ [a] ∧ acc'.2.2.2 = acc.2.2.2 + 1 ∧
       (addErrors = true → id ∈ fkeys s0.forest → RootErrAt acc'.1.forest id))
 
@@ -2366,7 +2366,7 @@ theorem augStep_ok (reg : Registry) (id : Nat) (addErrors : Bool) (nsOf : String
     | exact failOK
     | (rename_i root hroot
        refine ⟨hf2.trans (FLe_setTree _ _ _ _ hroot (ownMono_updateAt _ (fun x => ownMono_merge _ _ _) _ _)), rfl,
-         Or.inl ⟨rfl, rfl⟩⟩)
+         Or.inl ⟨rfl, rfl, rfl⟩⟩)
 
 
 /-- One `Augment` call: the forest keeps its keys and its root errors; the pending list of `id`
@@ -2379,30 +2379,37 @@ theorem augmentTree_ok (reg : Registry) (id : Nat) (addErrors : Bool) (s : PStat
         s.pending.map (fun (ip : Nat × List Entry) => if ip.1 == id then (ip.1, un) else (ip.1, ip.2)) ∧
       (∀ a ∈ un, a ∈ s.pendingOf id) ∧
       (augmentTree reg id addErrors s).2.2 = un.length ∧
-      (addErrors = true → un ≠ [] → id ∈ fkeys s.forest → RootErrAt (augmentTree reg id addErrors s).1.forest id) := by
+      (addErrors = true → un ≠ [] → id ∈ fkeys s.forest → RootErrAt (augmentTree reg id addErrors s).1.forest id) ∧
+      ((augmentTree reg id addErrors s).2.1 = 0 → un = [] → (augmentTree reg id addErrors s).1.forest = s.forest) := by
   rw [augmentTree_eq]
   dsimp only
   have key := foldl_inv (fun acc : PState × List Entry × Nat × Nat =>
       FLe s.forest acc.1.forest ∧ acc.1.pending = s.pending ∧ (∀ a ∈ acc.2.1, a ∈ s.pendingOf id) ∧
       acc.2.2.2 = acc.2.1.length ∧
-      (addErrors = true → acc.2.1 ≠ [] → id ∈ fkeys s.forest → RootErrAt acc.1.forest id))
+      (addErrors = true → acc.2.1 ≠ [] → id ∈ fkeys s.forest → RootErrAt acc.1.forest id) ∧
+      (acc.2.2.1 = 0 → acc.2.1 = [] → acc.1.forest = s.forest))
     (augStep reg id addErrors (namespaceAt reg s.forest (id, []))) (s.pendingOf id) (s, [], 0, 0)
-    ⟨FLe.refl _, rfl, by simp, rfl, fun _ h => absurd rfl h⟩ ?_
-  · obtain ⟨k1, k2, k3, k4, k5⟩ := key
-    refine ⟨_, k1, ?_, k3, k4, k5⟩
+    ⟨FLe.refl _, rfl, by simp, rfl, fun _ h => absurd rfl h, fun _ _ => rfl⟩ ?_
+  · obtain ⟨k1, k2, k3, k4, k5, k6⟩ := key
+    refine ⟨_, k1, ?_, k3, k4, k5, k6⟩
     simp only [PState.setPending, k2]
-  · rintro acc a ha ⟨i1, i2, i3, i4, i5⟩
+  · rintro acc a ha ⟨i1, i2, i3, i4, i5, i6⟩
     have st := augStep_ok reg id addErrors (namespaceAt reg s.forest (id, [])) acc.1 acc a (FLe.refl _)
     generalize augStep reg id addErrors (namespaceAt reg s.forest (id, [])) acc a = acc' at st ⊢
     obtain ⟨f1, f2, f3⟩ := st
-    refine ⟨i1.trans f1, f2.trans i2, ?_, ?_, ?_⟩
+    refine ⟨i1.trans f1, f2.trans i2, ?_, ?_, ?_, ?_⟩
+    rotate_left 3
+    · intro hp0 hun
+      rcases f3 with ⟨_, _, e3⟩ | ⟨e1, _, _⟩
+      · rw [e3] at hp0; exact absurd hp0 (by simp)
+      · rw [e1] at hun; exact absurd hun (by simp)
     · rcases f3 with ⟨e1, _⟩ | ⟨e1, _, _⟩
       · rw [e1]; exact i3
       · rw [e1]; intro x hx
         rcases List.mem_append.mp hx with hx | hx
         · exact i3 x hx
         · simp only [List.mem_singleton] at hx; subst hx; exact ha
-    · rcases f3 with ⟨e1, e2⟩ | ⟨e1, e2, _⟩
+    · rcases f3 with ⟨e1, e2, _⟩ | ⟨e1, e2, _⟩
       · rw [e1, e2]; exact i4
       · rw [e1, e2, i4]; simp
     · intro hadd hne hid
@@ -2445,7 +2452,7 @@ theorem pendingOf_ne_nil (s : PState) (id : Nat) (h : s.pendingOf id ≠ []) :
 
 theorem invB_augmentTree (reg : Registry) (id : Nat) (addErrors : Bool) (s : PState) (hB : InvB s) :
     InvB (augmentTree reg id addErrors s).1 := by
-  obtain ⟨un, fle, hp, hsub, _, _⟩ := augmentTree_ok reg id addErrors s
+  obtain ⟨un, fle, hp, hsub, _, _, _⟩ := augmentTree_ok reg id addErrors s
   intro p hp' hne
   rw [fle.1]
   rw [hp] at hp'
@@ -2475,7 +2482,7 @@ theorem augmentPass_inv (reg : Registry) : ∀ (fuel : Nat) (mods : Array Nat) (
     split
     · rename_i hi
       have hB' := invB_augmentTree reg mods[i] false s hB
-      obtain ⟨un, fle, hp, hsub, hk, _⟩ := augmentTree_ok reg mods[i] false s
+      obtain ⟨un, fle, hp, hsub, hk, _, _⟩ := augmentTree_ok reg mods[i] false s
       generalize augmentTree reg mods[i] false s = r at hB' hp hk ⊢
       obtain ⟨s', p, k⟩ := r
       dsimp only at hB' hp hk ⊢
@@ -2583,7 +2590,7 @@ theorem leftover_inv (reg : Registry) (left : Array Nat) (s : PState) (hB : InvB
     rintro done id ⟨s, cnt⟩ hid ⟨jB, jA, jE⟩
     dsimp only at jB jA jE ⊢
     have hB' := invB_augmentTree reg id true s jB
-    obtain ⟨un, fle, hp, hsub, hk, herr⟩ := augmentTree_ok reg id true s
+    obtain ⟨un, fle, hp, hsub, hk, herr, _⟩ := augmentTree_ok reg id true s
     generalize augmentTree reg id true s = r' at hB' fle hp hk herr ⊢
     obtain ⟨s', p, k⟩ := r'
     dsimp only at hB' fle hp hk herr ⊢
@@ -3353,7 +3360,7 @@ theorem augStep_inv (reg : Registry) (id : Nat) (addErrors : Bool) (nsOf : Strin
 
 theorem augmentTree_ainv (reg : Registry) (id : Nat) (addErrors : Bool) (s : PState) (h : AInv P PA s) :
     AInv P PA (augmentTree reg id addErrors s).1 := by
-  obtain ⟨un, _, hp, hsub, _, _⟩ := augmentTree_ok reg id addErrors s
+  obtain ⟨un, _, hp, hsub, _, _, _⟩ := augmentTree_ok reg id addErrors s
   refine ⟨?_, ?_⟩
   · rw [augmentTree_eq]
     dsimp only
@@ -3419,5 +3426,270 @@ theorem leftover_ainv (reg : Registry) (left : Array Nat) (s : PState) (h : AInv
   exact this
 
 end AugGeneric
+
+/-! ### the entry-layer predicate, with or without the type clause -/
+
+def wfqB (tp : Bool) (e : Entry) : Bool := wfq e && (!tp || typePresentHere e)
+
+theorem localOK_wfqB (env : Env) (tp : Bool) (ht : tp = true → TypeResTotal env.tres) : LocalOK env (wfqB tp) := by
+  cases tp with
+  | false =>
+    have : wfqB false = wfq := by funext e; simp [wfqB]
+    rw [this]; exact localOK_wfq env
+  | true =>
+    have : wfqB true = wfqT := by funext e; simp [wfqB, wfqT]
+    rw [this]; exact localOK_wfqT env (ht rfl)
+
+theorem wfqB_iff (tp : Bool) (d : EData) (c i o : List Entry) : wfqB tp (.mk d c i o) = true ↔
+    ((c.map (·.name)).Nodup ∧ i.length ≤ 1 ∧ o.length ≤ 1) ∧ kindsWeakHere (.mk d [] [] []) = true ∧
+    ((∀ x ∈ c, x.d.kind ≠ .deviate) ∧ (∀ x ∈ i, x.d.kind ≠ .deviate) ∧ (∀ x ∈ o, x.d.kind ≠ .deviate)) ∧
+    (tp = true → typePresentHere (.mk d [] [] []) = true) := by
+  simp only [wfqB, wfq, Bool.and_eq_true, keysUniqueHere_iff, ndHere_iff, Bool.or_eq_true, Bool.not_eq_true']
+  have h1 : kindsWeakHere (.mk d c i o) = kindsWeakHere (.mk d [] [] []) := rfl
+  have h2 : typePresentHere (.mk d c i o) = typePresentHere (.mk d [] [] []) := rfl
+  rw [h1, h2]
+  constructor
+  · rintro ⟨⟨⟨a, b⟩, c⟩, e⟩
+    refine ⟨a, b, c, ?_⟩
+    intro htp; rcases e with e | e
+    · rw [htp] at e; exact absurd e (by simp)
+    · exact e
+  · rintro ⟨a, b, c, e⟩
+    refine ⟨⟨⟨a, b⟩, c⟩, ?_⟩
+    cases tp with
+    | false => exact Or.inl rfl
+    | true => exact Or.inr (e rfl)
+
+/-! ### `fixChoice` and the invariants -/
+
+theorem noErrors_fixChoice (e : Entry) : NoErrors (fixChoice e) ↔ NoErrors e := by
+  induction e using entry_ind with
+  | h d c i o hc hi ho =>
+    rw [fixChoice_eq, noErrors_mk, noErrors_mk]
+    have hwrap : ∀ x, NoErrors (wrapCase x) ↔ NoErrors x := by
+      intro x; unfold wrapCase; split
+      · rfl
+      · rw [noErrors_mk]; simp
+    constructor
+    · rintro ⟨h1, h2, h3, h4⟩
+      refine ⟨h1, ?_, ?_, ?_⟩
+      · intro x hx
+        apply (hc x hx).1
+        split at h2
+        · exact (hwrap _).1 (h2 _ (List.mem_map.mpr ⟨_, List.mem_map.mpr ⟨x, hx, rfl⟩, rfl⟩))
+        · exact h2 _ (List.mem_map.mpr ⟨x, hx, rfl⟩)
+      · intro x hx; exact (hi x hx).1 (h3 _ (List.mem_map.mpr ⟨x, hx, rfl⟩))
+      · intro x hx; exact (ho x hx).1 (h4 _ (List.mem_map.mpr ⟨x, hx, rfl⟩))
+    · rintro ⟨h1, h2, h3, h4⟩
+      refine ⟨h1, ?_, ?_, ?_⟩
+      · intro x hx
+        split at hx
+        · simp only [List.mem_map] at hx
+          obtain ⟨y, ⟨z, hz, rfl⟩, rfl⟩ := hx
+          exact (hwrap _).2 ((hc z hz).2 (h2 z hz))
+        · simp only [List.mem_map] at hx
+          obtain ⟨z, hz, rfl⟩ := hx
+          exact (hc z hz).2 (h2 z hz)
+      · intro x hx
+        simp only [List.mem_map] at hx
+        obtain ⟨z, hz, rfl⟩ := hx
+        exact (hi z hz).2 (h3 z hz)
+      · intro x hx
+        simp only [List.mem_map] at hx
+        obtain ⟨z, hz, rfl⟩ := hx
+        exact (ho z hz).2 (h4 z hz)
+
+theorem fixChoice_name (e : Entry) : (fixChoice e).name = e.name := by
+  unfold Entry.name; rw [fixChoice_d]
+
+theorem names_fix (c : List Entry) (g : Bool) :
+    (if g then (c.map fixChoice).map wrapCase else c.map fixChoice).map (·.name) = c.map (·.name) := by
+  split
+  · simp only [List.map_map]
+    apply List.map_congr_left
+    intro x _
+    simp only [Function.comp, wrapCase_name, fixChoice_name]
+  · simp only [List.map_map]
+    apply List.map_congr_left
+    intro x _
+    simp only [Function.comp, fixChoice_name]
+
+theorem U_wrapCase (x : Entry) (h : U x) : U (wrapCase x) := by
+  unfold wrapCase; split
+  · exact h
+  · rw [U_mk]
+    refine ⟨⟨?_, by simp, by simp⟩, ?_, by simp, by simp⟩
+    · unfold names1
+      simp only [List.map_cons, List.map_nil]
+      by_cases hx : x.name = "" <;> simp [hx]
+    · intro y hy; simp only [List.mem_singleton] at hy; subst hy; exact h
+
+theorem U_fixChoice (e : Entry) (h : U e) : U (fixChoice e) := by
+  induction e using entry_ind with
+  | h d c i o hc hi ho =>
+    rw [fixChoice_eq]
+    rw [U_mk] at h ⊢
+    refine ⟨⟨?_, by simpa using h.1.2.1, by simpa using h.1.2.2⟩, ?_, ?_, ?_⟩
+    · unfold names1 at h ⊢
+      rw [names_fix]; exact h.1.1
+    · intro x hx
+      split at hx
+      · simp only [List.mem_map] at hx
+        obtain ⟨y, ⟨z, hz, rfl⟩, rfl⟩ := hx
+        exact U_wrapCase _ (hc z hz (h.2.1 z hz))
+      · simp only [List.mem_map] at hx
+        obtain ⟨z, hz, rfl⟩ := hx
+        exact hc z hz (h.2.1 z hz)
+    · intro x hx
+      simp only [List.mem_map] at hx
+      obtain ⟨z, hz, rfl⟩ := hx
+      exact hi z hz (h.2.2.1 z hz)
+    · intro x hx
+      simp only [List.mem_map] at hx
+      obtain ⟨z, hz, rfl⟩ := hx
+      exact ho z hz (h.2.2.2 z hz)
+
+theorem wfqB_wrapCase (tp : Bool) (x : Entry) (hk : x.d.kind ≠ .deviate) (h : everyNode (wfqB tp) x = true) :
+    everyNode (wfqB tp) (wrapCase x) = true := by
+  unfold wrapCase; split
+  · exact h
+  · rw [everyNode_mk]
+    refine ⟨?_, ?_, by simp, by simp⟩
+    · rw [wfqB_iff]
+      refine ⟨⟨by simp, by simp, by simp⟩, by simp [kindsWeakHere, Entry.d], ⟨?_, by simp, by simp⟩, ?_⟩
+      · intro y hy; simp only [List.mem_singleton] at hy; subst hy; exact hk
+      · intro _; simp [typePresentHere, Entry.d]
+    · intro y hy; simp only [List.mem_singleton] at hy; subst hy; exact h
+
+theorem wfqB_fixChoice (tp : Bool) (e : Entry) (h : everyNode (wfqB tp) e = true) :
+    everyNode (wfqB tp) (fixChoice e) = true := by
+  induction e using entry_ind with
+  | h d c i o hc hi ho =>
+    rw [fixChoice_eq]
+    rw [everyNode_mk] at h ⊢
+    obtain ⟨h0, h1, h2, h3⟩ := h
+    rw [wfqB_iff] at h0
+    obtain ⟨⟨k1, k2, k3⟩, kw, ⟨n1, n2, n3⟩, tpc⟩ := h0
+    refine ⟨?_, ?_, ?_, ?_⟩
+    · rw [wfqB_iff]
+      refine ⟨⟨?_, by simpa using k2, by simpa using k3⟩, kw, ⟨?_, ?_, ?_⟩, tpc⟩
+      · rw [names_fix]; exact k1
+      · intro x hx
+        split at hx
+        · simp only [List.mem_map] at hx
+          obtain ⟨y, _, rfl⟩ := hx
+          rw [wrapCase_kind]; decide
+        · simp only [List.mem_map] at hx
+          obtain ⟨z, hz, rfl⟩ := hx
+          rw [fixChoice_kind]; exact n1 z hz
+      · intro x hx
+        simp only [List.mem_map] at hx
+        obtain ⟨z, hz, rfl⟩ := hx
+        rw [fixChoice_kind]; exact n2 z hz
+      · intro x hx
+        simp only [List.mem_map] at hx
+        obtain ⟨z, hz, rfl⟩ := hx
+        rw [fixChoice_kind]; exact n3 z hz
+    · intro x hx
+      split at hx
+      · simp only [List.mem_map] at hx
+        obtain ⟨y, ⟨z, hz, rfl⟩, rfl⟩ := hx
+        exact wfqB_wrapCase tp _ (by rw [fixChoice_kind]; exact n1 z hz) (hc z hz (h1 z hz))
+      · simp only [List.mem_map] at hx
+        obtain ⟨z, hz, rfl⟩ := hx
+        exact hc z hz (h1 z hz)
+    · intro x hx
+      simp only [List.mem_map] at hx
+      obtain ⟨z, hz, rfl⟩ := hx
+      exact hi z hz (h2 z hz)
+    · intro x hx
+      simp only [List.mem_map] at hx
+      obtain ⟨z, hz, rfl⟩ := hx
+      exact ho z hz (h3 z hz)
+
+/-! ### the augment stage, concretely -/
+
+/-- The invariant of a module tree during the augment stage. -/
+def TreeInv (q : Entry → Bool) (t : Entry) : Prop := TInv q t ∧ t.d.kind = .directory
+
+theorem updateAt_kind (f : Entry → Entry) (hf : ∀ x, (f x).d.kind = x.d.kind) (p : Path) (e : Entry) :
+    (e.updateAt p f).d.kind = e.d.kind := by
+  cases p with
+  | nil => exact hf e
+  | cons s p => cases e with | mk d c i o => cases s <;> rfl
+
+theorem augClosed_treeInv {env : Env} {q : Entry → Bool} (hq : LocalOK env q) : AugClosed (TreeInv q) (TInv q) where
+  find reg f start ctx name hf hs :=
+    find_inv2 (TreeInv q)
+      (walkParts_inv2 (TreeInv q)
+        (fun root p e h hp hg hi => ⟨tinv_setImplicitIn hq root p e h.1 hp hg hi,
+          (updateAt_kind _ (fun x => by cases x; rfl) p root).trans h.2⟩)
+        (fun root p e h hp hg ho => ⟨tinv_setImplicitOut hq root p e h.1 hp hg ho,
+          (updateAt_kind _ (fun x => by cases x; rfl) p root).trans h.2⟩))
+      (fun e x h => ⟨tinv_addErr hq e x h.1, by cases e; exact h.2⟩) reg f start ctx name hf hs
+  addErr e x h := ⟨tinv_addErr hq e x h.1, by cases e; exact h.2⟩
+  mergeAt root path te a ns h hp hg ha :=
+    ⟨tinv_merge_at hq root path te a ns h.1 hp hg ha,
+      (updateAt_kind _ (fun x => (rootKeep_merge x ns a).2.1) path root).trans h.2⟩
+
+theorem ainv_pstate0 (reg : Registry) (opts : Opts) (plug : Plug) {q : Entry → Bool}
+    (hq : LocalOK (envOf reg opts plug) q) : AInv (TreeInv q) (TInv q) (pstate0 reg opts plug) := by
+  have hU := tstate_ok reg opts plug (closed_U (envOf reg opts plug))
+  have hC := tstate_ok reg opts plug (closed_cond hq)
+  refine ⟨?_, ?_⟩
+  · intro t ht
+    simp only [pstate0, forest0] at ht
+    exact ⟨⟨hU.cache t ht, hC.cache t ht⟩, hU.ckind t ht⟩
+  · intro p hp a ha
+    simp only [pstate0, pending0, List.mem_map] at hp
+    obtain ⟨m, _, rfl⟩ := hp
+    dsimp only at ha
+    cases hf : (tstate reg opts plug).augs.find? (·.1 == m.seq) with
+    | none => simp [hf] at ha
+    | some r =>
+      simp only [hf, Option.map_some, Option.getD_some] at ha
+      have hr := List.mem_of_find?_eq_some hf
+      exact ⟨hU.augs r hr a ha, hC.augs r hr a ha⟩
+
+theorem ainv_fixAll {q : Entry → Bool} (hfix : ∀ e, everyNode q e = true → everyNode q (fixChoice e) = true)
+    (s : PState) (h : AInv (TreeInv q) (TInv q) s) : AInv (TreeInv q) (TInv q) (fixAll s) := by
+  refine ⟨?_, h.pend⟩
+  intro t ht
+  simp only [fixAll, List.mem_map] at ht
+  obtain ⟨⟨i, e⟩, he, rfl⟩ := ht
+  have := h.trees _ he
+  dsimp only at this ⊢
+  refine ⟨⟨U_fixChoice e this.1.1, ?_⟩, by rw [fixChoice_kind]; exact this.2⟩
+  intro hn
+  exact hfix e (this.1.2 ((noErrors_fixChoice e).1 hn))
+
+theorem ainv_preDev (reg : Registry) (opts : Opts) (plug : Plug) {q : Entry → Bool}
+    (hq : LocalOK (envOf reg opts plug) q)
+    (hfix : ∀ e, everyNode q e = true → everyNode q (fixChoice e) = true) :
+    AInv (TreeInv q) (TInv q) (preDev reg opts plug) := by
+  have hA := augClosed_treeInv hq
+  have h1 := augmentLoop_ainv hA reg ((pending0 reg opts plug).foldl (fun n p => n + p.2.length) 0 + 2)
+    ((augOrder reg).map (·.seq)).toArray (pstate0 reg opts plug) (ainv_pstate0 reg opts plug hq)
+  have h2 := leftover_ainv hA reg (afterLoop reg opts plug).1 (fixAll (afterLoop reg opts plug).2)
+    (ainv_fixAll hfix _ h1)
+  unfold preDev
+  split
+  · exact ainv_fixAll hfix _ h2
+  · exact h2
+
+/-- What a clean `Process` has established before the deviations: every tree is error-free, has
+`q` at every node, unconditionally unique non-empty sibling names, and a directory root. -/
+theorem preDev_clean (reg : Registry) (opts : Opts) (plug : Plug) {q : Entry → Bool}
+    (hq : LocalOK (envOf reg opts plug) q)
+    (hfix : ∀ e, everyNode q e = true → everyNode q (fixChoice e) = true)
+    (h : (processAll reg opts plug).errors = []) :
+    ∀ t ∈ (preDev reg opts plug).forest.trees,
+      NoErrors t.2 ∧ everyNode q t.2 = true ∧ U t.2 ∧ t.2.d.kind = .directory := by
+  obtain ⟨_, _, h3, _, _⟩ := processAll_clean reg opts plug h
+  have hne := (forestErrs_eq_nil _).1 h3
+  have hinv := ainv_preDev reg opts plug hq hfix
+  intro t ht
+  have := hinv.trees t ht
+  exact ⟨hne t ht, this.1.2 (hne t ht), this.1.1, this.2⟩
 
 end Goyang.Lemmas.Tree
